@@ -8,6 +8,10 @@ ids = [p["id"] for p in props]
 
 # id -> (engine, technique, level text, level note, design ref)
 CHECKS = {
+ "C05": ("E5", "bounded-exhaustive enumeration: all pairs of small interval sets for the unaccepted-memory subtraction against a bitmap model, and all orderings/attribute assignments of valid TDVF section lists x RAM bank lists x launch modes for tdx.MRTD against an independent reference of the MEM.PAGE.ADD / MR.EXTEND record stream and hand-off block",
+         "(i) 1.0M pairs of sets of <=3 disjoint intervals over 8 cells (both input orders, zero-length entries) through the exported-by-overlay unacceptedMemRanges vs a bitmap model; (ii) 45k (thorough: all orders, ~400k) images with four firmware-volume layouts, hand-off block of 1-2 pages, 0-2 temp-memory ranges, every extension-attribute assignment, 11 RAM bank lists (all six GCE shapes checked against the documented layout, banks cutting through sections, a bank ending exactly at 4 GiB) and the three launch modes: MRTD and returned regions must equal the reference built from the TDX module spec records and PI-spec HOB layouts.",
+         "Trusted: crypto/sha512; early-accept-below-4GiB rule taken from the code's own comment; section sizes are pages, not megabytes; validity of metadata is the statement's precondition (temp memory flagged for extension may be refused); the interval sub-check needs the overlay export.",
+         "DESIGN.md#c05"),
  "C04": ("E5", "bounded-exhaustive enumeration of firmware images (all SNP metadata section lists up to a length bound over a menu incl. malformed ones; size/content/reset-address/vCPU/product sweeps) with the real sev.LaunchDigest compared against an independent reference of the SNP_LAUNCH_UPDATE digest chain",
          "All 216k section lists of length <=3 (thorough: plus 1M lists of length 4 over a reduced menu) over kinds 1-5, four addresses (one misaligned, one whose end wraps 32 bits) and three lengths (one empty), and sweeps over image size, contents, five reset-block addresses, vCPU counts -1..240 and both products, are measured by the real code and by a reference written from the ABI text (own GUID-table walk, metadata parser, PAGE_INFO layout, VMSA (offset,width,value) table); malformed images must be rejected, accepted ones must equal the reference, two calls agree and the image is unchanged.",
          "Trusted: crypto/sha512; the boot-processor reset state is restated from the APM layout with GCE's values (an error common to that table and the repository's template text would not be seen); images are 4-12 KiB.",
